@@ -275,8 +275,10 @@ def specs_for(ctx, n):
     out = []
     for i in range(n):
         nf = [1, 2, 3, 4, 5, 3][i % 6]
-        out.append(plotgen.random_spec(ctx.rng, ndims=[3, 2, 3][i % 3], nf=nf, data="bits", B=2,
-                                       repeats=(i % 5 == 4)))
+        thin = i % 4 == 3           # one-cell blocks: boxes one cell thick in some direction
+        nd = [3, 2, 3][i % 3]
+        out.append(plotgen.random_spec(ctx.rng, ndims=nd, nf=nf, data="bits", B=1 if thin else 2,
+                                       nblk=[3, 2, 2][:nd] if thin else None, repeats=(i % 5 == 4)))
     return out
 
 
